@@ -79,9 +79,8 @@ def fitPredict (degree : Nat) (bias : Bool) (y : List Val) (origin : Int) (raw :
     Except Err (List (Int × Val)) := do
   if y.length = 0 then throw .value
   checkPoly degree bias
-  let ys ← match y.mapM id with
-    | some ys => pure ys
-    | none => throw .value                                        -- sklearn: "Input y contains NaN"
+  if y.any (·.isNone) then throw .value                            -- sklearn: "Input y contains NaN"
+  let ys := y.filterMap id
   let (ts, labels) ← predTimes y.length origin raw rel
   let (a, b) := olsCoef degree bias ys
   pure (labels.zip (ts.map (fun (t : Int) => some (a + b * (t : Rat)))))
